@@ -319,6 +319,17 @@ class QRun:
                     continue
                 self.consumed.add(i)
                 self.env(s)
+                nxt = self.sched[i + 1] if i + 1 < len(self.sched) else None
+                if (s['op'] == 'qpost' and nxt is not None and nxt['op'] == 'qremove' and (i + 1) not in self.consumed
+                        and nxt['h'] in self.keys and (i + len(self.sched)) % 2 == 0):
+                    # the removal that follows the post is made by a handler of a PLAIN event dispatched in the same run of
+                    # the event queue, right after the queue event had its turn: its dispatcher exists, but has not taken
+                    # its snapshot yet (in the model: RemoveQ between PostQ and QBegin)
+                    self.consumed.add(i + 1)
+                    key = self.evm.add_handler('vq_rmplain', lambda **kwargs: self.env(nxt))
+                    self.evm.post('vq_rmplain')
+                    self.settle()
+                    self.evm.remove_handler_by_key(key)
                 self.settle()
                 for d in list(self.deferred):
                     hit = [w for w in self.waits if w[0] == d[0] and w[1].split('_')[0] == d[1]]
@@ -413,6 +424,10 @@ def handmade():
         [A('h1', 'q1', 2), A('h2', 'q1', 1), P('q1'), I(1, 'h1'), W(1, 'h1'), C(1, 'h1'), R, I(1, 'h2'), R],
         # no handlers at all
         [P('q3'), P('q3')],
+        # the only handler is removed after the queue event had its turn in the bus and before its dispatcher started
+        # (the driver realises a removal that directly follows a post that way): the callback must still run
+        [A('h1', 'q1', 1), P('q1'), {'op': 'qremove', 'h': 'h1'}],
+        [A('h1', 'q1', 2), A('h2', 'q1', 1), P('q1'), {'op': 'qremove', 'h': 'h1'}, P('q1'), {'op': 'qremove', 'h': 'h2'}],
     ]
 
 
